@@ -138,6 +138,20 @@ def run(ctx):
                 if out[:2] != ('val', want):
                     ctx.violation("oracle", f"`{src}` with d={x.isoformat()}, k={k} gives {out[:3]}, expected {want}",
                                   {"op": "program", "src": src, "d": x.isoformat(), "k": k})
+    # conversions of dates with a time of day, first and last representable day included
+    for n in [first, last, last - 1, first + 1] + rng.sample(days, 200 if ctx.thorough else 40):
+        d = ref_date(n)
+        for h, mi, sec in [(23, 59, 59), (0, 0, 1), (12, 0, 0), (rng.randrange(24), rng.randrange(60), rng.randrange(60))]:
+            x = datetime.datetime(d.year, d.month, d.day, h, mi, sec)
+            env.put("d", V.ValueDate(x))
+            env.put("n", V.ValueInt(n))
+            for src, want in [("date(decimal(d)) == d", "TRUE"), ("int(d) == n", "TRUE"), ("date(int(d)) == date(n)", "TRUE"), ("decimal(d) > n", "TRUE"),
+                              ("decimal(d) < n + 1", "TRUE"), ("string(date(decimal(d)))", "'" + x.strftime("%Y%m%d%H%M%S") + "'") if d.year >= 1000 else ("1", "1")]:
+                out = common.run_program(it, src)
+                ctx.seen(("conv-time", n, (h, mi, sec), src), nontrivial=True)
+                if out[:2] != ('val', want):
+                    ctx.violation("oracle", f"`{src}` with d={x.isoformat()} (day number {n}) gives {out[:3]}, expected {want}",
+                                  {"op": "program", "src": src, "d": x.isoformat(), "n": n})
     for n in picks:
         d = ref_date(n)
         dv = V.ValueDate(datetime.datetime(d.year, d.month, d.day))
